@@ -39,6 +39,7 @@ type nodeSpec struct {
 	IgnTerm    bool       `json:"ignTerm"`
 	Holds      bool       `json:"holds"`
 	ExitEarly  bool       `json:"exitEarly"`
+	FirstRun   bool       `json:"firstRunExits"` // the first time this command is run it exits at once (0): the earlier, completed, run of a re-used object
 	PidDir     string     `json:"pidDir"`
 	Children   []nodeSpec `json:"children"`
 }
@@ -51,6 +52,13 @@ func node(a *hk.Args) error {
 	var sp nodeSpec
 	if err := json.Unmarshal(b, &sp); err != nil {
 		return err
+	}
+	if sp.FirstRun {
+		marker := filepath.Join(sp.PidDir, "ran-once")
+		if _, err := os.Stat(marker); err != nil {
+			_ = os.WriteFile(marker, []byte("x"), 0o644)
+			os.Exit(0)
+		}
 	}
 	if sp.LeaveGroup {
 		_, _ = syscall.Setsid()
@@ -110,6 +118,7 @@ type scenario struct {
 	StartMode string `json:"startMode"`
 	StopMode  string `json:"stopMode"`
 	RootIgn   bool   `json:"rootIgnTerm"` // the direct child ignores SIGTERM
+	Reused    bool   `json:"reused"`      // the Subprocess object has been started and stopped once before
 	Launcher  string `json:"launcher"` // direct | translated (through a command translator: env, which execs the command)
 	Desc      []int  `json:"desc"`
 }
@@ -196,6 +205,7 @@ func runTree(id int, sc scenario, scratch string) (treeEvent, error) {
 		} else {
 			n.ExitEarly = sc.RootExits
 			n.IgnTerm = sc.RootIgn
+			n.FirstRun = sc.Reused
 		}
 		for _, d := range sc.Desc {
 			if sc.Parent[d-1] == id {
@@ -231,6 +241,22 @@ func runTree(id int, sc scenario, scratch string) (treeEvent, error) {
 			}
 		}
 	}()
+	if sc.Reused {
+		// an earlier, completed, run of the same object: the first time the command is run it exits at once
+		first := make(chan error, 1)
+		go func() { first <- p.Execute() }()
+		select {
+		case err := <-first:
+			if err != nil {
+				ev.Note = "the first (short) run of the re-used object failed: " + err.Error()
+				return ev, nil
+			}
+		case <-time.After(15 * time.Second):
+			ev.Note = "the first (short) run of the re-used object did not end"
+			return ev, nil
+		}
+		time.Sleep(20 * time.Millisecond)
+	}
 	done := make(chan error, 1)
 	if sc.StartMode == "execute" {
 		go func() { done <- p.Execute() }()
